@@ -157,8 +157,11 @@ spawnphase(struct stageinfo *phase, int *fd, char *input, char *output, bool las
 	ret = posix_spawn_file_actions_init(&actions);
 	if (ret)
 		goto err0;
-	if (*fd != -1)
+	if (*fd != -1) {
 		ret = posix_spawn_file_actions_adddup2(&actions, *fd, 0);
+		if (ret)
+			goto err1;
+	}
 	if (!last) {
 		if (pipe(pipefd) < 0) {
 			ret = errno;
